@@ -30,6 +30,14 @@ def run(tier, seed, repo, focus=None):
         for (strict, loose, st) in ((0.015, 0.02, 500), (0.019, 0.02, 500), (0.04, 0.06, 200), (0.01, 0.05, 300)):
             scns.append({"seed": seed + s + 3, "strict": strict, "loose": loose, "sampling_times": st, "k": 30, "rows": 100, "slope": 0.04, "n": 12})
     drivers.run_scenarios(res, "nndvi_alpha", scns, known)
+    # HDDDM / CDBD in 'number of standard deviations' mode, also with fractional counts, on creeping histories
+    scns = []
+    for name in ("HDDDM", "CDBD"):
+        for s in range(3 if quick else 12):
+            for (strict, loose) in ((3.0, 0.5), (0.6, 0.05), (0.9, 0.2), (1.5, 0.4), (2.0, 0.8)):
+                for slope in (0.12, 0.3):
+                    scns.append({"det": name, "seed": seed + s, "strict": strict, "loose": loose, "n": 14, "slope": slope})
+    drivers.run_scenarios(res, "hdm_stdev", scns, known)
     scns = []
     for name, pairs in drivers.WARNINGS.items():
         d = C.DETECTORS[name]
